@@ -4,6 +4,7 @@ import (
 	"encoding/json"
 	"fmt"
 	"github.com/jirenius/go-res/store"
+	"github.com/jirenius/go-res/store/mockstore"
 	"net/url"
 	"strconv"
 	"strings"
@@ -139,6 +140,77 @@ func c07StoreHandler(c *core.Ctx, p c04Params) {
 	c.Sample(map[string]interface{}{"scenario": "events generated by store.Handler", "config": cfg, "mutations": p.N})
 	if p.Shard == 0 {
 		c07QueryHandlerPatterns(c)
+		c07QueryHandlerNilResults(c)
+	}
+}
+
+// c07QueryHandlerNilResults: a query store written the usual way (var ids []string, append the
+// hits) hands a nil slice to the handler when nothing matches. With an id-to-reference
+// transformer the library builds the served value from it: that is a collection, a JSON
+// array, on ordinary and on query resources. (Without transformer the store's value is
+// served as it is; the requests are made, their results are the store's business.)
+func c07QueryHandlerNilResults(c *core.Ctx) {
+	for _, withTrans := range []bool{false, true} {
+		for _, queryRes := range []bool{false, true} {
+			qs := mockstore.NewQueryStore(func(q url.Values) (interface{}, error) {
+				var ids []string
+				if q.Get("hits") != "0" {
+					ids = append(ids, "a", "b")
+				}
+				return ids, nil
+			})
+			qh := store.QueryHandler{QueryStore: qs}
+			if withTrans {
+				qh.Transformer = store.IDToRIDCollectionTransformer(func(id string) string { return "svc.item." + id })
+			}
+			if queryRes {
+				qh.QueryRequestHandler = func(rname string, pp map[string]string, q url.Values) (url.Values, string, error) {
+					return url.Values{"hits": {q.Get("hits")}}, "hits=" + q.Get("hits"), nil
+				}
+			} else {
+				qh.RequestHandler = func(rname string, pp map[string]string) (url.Values, error) {
+					return url.Values{"hits": {rname[len(rname)-1:]}}, nil
+				}
+			}
+			// (patterns without placeholders: the handler has no AffectedResources callback)
+			rg := newRig("svc", func(s *res.Service) {
+				s.Handle("found.2", res.Collection, qh)
+				s.Handle("found.0", res.Collection, qh)
+			})
+			if err := rg.start(); err != nil {
+				c.Inconclusive("start: " + err.Error())
+				return
+			}
+			for _, hits := range []string{"2", "0"} {
+				var pl []byte
+				if queryRes {
+					pl, _ = json.Marshal(map[string]string{"query": "hits=" + hits})
+				}
+				start := rg.C.Len()
+				inbox, done, n := rg.send("get.svc.found."+hits, pl)
+				c.Eval(1)
+				c.Obs("query_handler_gets", 1)
+				if n != 1 || !waitCh(done, 10*time.Second) {
+					c.Inconclusive("get not processed")
+					continue
+				}
+				resp, _ := replies(rg.C.Since(start), inbox)
+				if len(resp) != 1 {
+					continue
+				}
+				if !withTrans {
+					// without transformer the store's own value is served as it is: a nil slice is
+					// the query store's doing (it is served as null), not a value the library built
+					continue
+				}
+				for _, pr := range ref.ValidateGetResult(resp[0].Data, "collection") {
+					c.Violation("C07/query-handler:get-result:"+c07ProbClass(pr), fmt.Sprintf("store.QueryHandler (id-to-reference transformer: %v, query resource: %v) over a query store that returns a nil slice for no hits answered with %s: %s", withTrans, queryRes, resp[0].Payload, pr),
+						map[string]interface{}{"transformer": withTrans, "query_resource": queryRes, "hits": hits, "response": resp[0].Payload})
+				}
+				c.Distinct(fmt.Sprintf("nil-results/%v/%v/%s", withTrans, queryRes, hits))
+			}
+			rg.stop()
+		}
 	}
 }
 
